@@ -150,6 +150,11 @@ def cases(prop, tier, seed):
     n = rng.randint(4, 10)
     w = [['G', rng.randint(1, 3), rng.randint(1, 2)]] + [rng.choice(alpha3 + ['K', 'F', 'D']) for _ in range(n)]
     out.append({'kind': 'refcounted', 'mode': 'provider', 'ops': _rand_sched(rng, w)})
+  if not quick:
+    # one forked process per case is dominated by process start-up: pack BUNDLE independent cases
+    # (fresh provider / pool / sinks each; the components have no global state) into one trace,
+    # separated by Reset events
+    out = [{'episodes': out[i:i + BUNDLE]} for i in range(0, len(out), BUNDLE)]
   return out
 
 
@@ -388,10 +393,28 @@ class _Shared(object):
     return out
 
 
+BUNDLE = 8
+
+
 def run_case(script):
   if 'behaviour' in script:
     o = _replay_one(script)
     return {'cfg': o['cfg'], 'ev': o['ev']}
+  if 'episodes' in script:
+    ev = []
+    first = None
+    for j, sub in enumerate(script['episodes']):
+      o = _run_one(sub)
+      if j == 0:
+        first = o['cfg']
+      else:
+        ev.append({'e': 'Reset', 'kind': o['cfg']['kind']})
+      ev.extend(o['ev'])
+    return {'cfg': first, 'ev': ev}
+  return _run_one(script)
+
+
+def _run_one(script):
   loop = common.boot()
   w = _World(loop)
   loop.run_until_idle()
@@ -447,9 +470,17 @@ def nontrivial(prop, t):
   return None
 
 
+def extra_coverage(prop, tier, traces):
+  return {'histories_evaluated': sum(1 + sum(1 for e in t['ev'] if e['e'] == 'Reset') for t in traces)}
+
+
 def witness(prop, t, consumed, clause):
   ev = t['ev']
-  w = {'kind': t['cfg']['kind'], 'mode': t['cfg'].get('mode', '')}
+  kind = t['cfg']['kind']
+  for e in ev[:consumed + 1]:
+    if e['e'] == 'Reset':
+      kind = e['kind']
+  w = {'kind': kind}
   if consumed < len(ev):
     w['at'] = ev[consumed]['e']
   return w
